@@ -1,5 +1,5 @@
 \* exhaustive, grid/cache focus: assembly > block > component, nesting 3 (quick)
-CONSTANTS N = 3  Par = {"p", "q"}  NVal = 2  NGrid = 2  MaxDepth = 3  MaxLevel = 7
+CONSTANTS N = 3  Par = {"p", "q"}  NVal = 2  NGrid = 2  MaxDepth = 3  MaxLevel = 6
           GridSlot = "stack"  PickleSerial = "fresh"  DbSerial = "max"
 CONSTANTS Keeps <- KeepsNone  Acts <- ActsGrid  Parent0 <- ParentB  Cls0 <- ClsB
           ParOf <- McParOf  GridCls <- McGridCls  MatCls <- McMatCls
